@@ -13,6 +13,7 @@ class C22(dfir.DfirSpec):
     theorems = ["C22_perturbation_operators", "C22_identity_insert"]
     modes = ("ticks", "avail")
     level = "other"
+    explanation = "Not category proof: the operator models are list functions of a tick's complete inputs and do not model the pull and push realisations separately, so theorem (i) of the design (op_tick_pull = op_tick_push) and theorem (ii) (handoff split / identity insertion preserve run_tick on the partitioned program) are not proved; compile/fail agreement (iii) is only probed. Proved: C22_perturbation_operators, C22_identity_insert."
     assumptions = [
         "the operator models do not distinguish the pull and push realisations of a write_fn; equality of the two "
         "realisations and of different partitions is tested (variant against variant, and each variant against the "
